@@ -63,8 +63,53 @@ def c12_struct(tier="quick", seed=0):
                         out.append(ob(f"C12.struct.cache.{mod.split('.')[-1]}.{n.name}", False, "K3", f"@{dn} on {n.name} shares results between contexts ({mod}:{n.lineno})",
                                       witness="one context modifies the cached built-in, another observes it"))
                 for dflt in n.args.defaults + n.args.kw_defaults:
-                    if isinstance(dflt, (ast.List, ast.Dict, ast.Set)):
+                    if isinstance(dflt, (ast.List, ast.Dict, ast.Set, ast.ListComp, ast.DictComp, ast.SetComp)) or \
+                            (isinstance(dflt, ast.Call) and getattr(dflt.func, "id", "") in ("list", "dict", "set", "defaultdict", "OrderedDict", "bytearray")):
                         out.append(ob(f"C12.struct.mutable-default.{mod.split('.')[-1]}.{n.name}", False, "K3", f"mutable default argument in {n.name} ({mod}:{n.lineno})"))
+    # 1b. nothing is stored on a class object (or on a function object) at run time: such an attribute is one value for
+    # the whole process, whatever context wrote it last
+    class_names = set()
+    for mod, mi in src.modules.items():
+        class_names.update(n.name for n in ast.walk(mi.tree) if isinstance(n, ast.ClassDef))
+    func_names = set()
+    for mod, mi in src.modules.items():
+        func_names.update(n.name for n in mi.tree.body if isinstance(n, ast.FunctionDef))
+    n_attr = 0
+    for mod, mi in src.modules.items():
+        for f in ast.walk(mi.tree):
+            if not isinstance(f, (ast.FunctionDef, ast.Lambda)):
+                continue
+            for n in ast.walk(f):
+                tgts = []
+                if isinstance(n, ast.Assign):
+                    tgts = list(n.targets)
+                elif isinstance(n, (ast.AugAssign, ast.AnnAssign)):
+                    tgts = [n.target]
+                elif isinstance(n, ast.NamedExpr):
+                    tgts = [n.target]
+                elif isinstance(n, ast.Call) and isinstance(n.func, ast.Name) and n.func.id == "setattr" and n.args:
+                    tgts = [ast.Attribute(value=n.args[0], attr="<setattr>", ctx=ast.Store())]
+                flat = []
+                for t_ in tgts:
+                    flat.extend(t_.elts if isinstance(t_, (ast.Tuple, ast.List)) else [t_])
+                for t_ in flat:
+                    base = t_.value if isinstance(t_, (ast.Attribute, ast.Subscript)) else None
+                    # X.attr = ... / X.attr[k] = ...  with X a class of the package, cls, type(self), self.__class__, or a function
+                    while isinstance(base, (ast.Attribute, ast.Subscript)) and not (isinstance(base, ast.Attribute) and base.attr == "__class__"):
+                        base = base.value
+                    if base is None:
+                        continue
+                    n_attr += 1
+                    txt = ast.unparse(base)
+                    on_class = (isinstance(base, ast.Name) and (base.id in class_names or base.id == "cls" or base.id in func_names)) or \
+                        txt.startswith("type(") or txt.endswith(".__class__")
+                    # (the singleton idiom of the immutable undefined/null values: `cls._instance = super().__new__(cls)` in __new__)
+                    singleton = isinstance(f, ast.FunctionDef) and f.name == "__new__" and isinstance(n, ast.Assign) and ast.unparse(n.value) == "super().__new__(cls)"
+                    if on_class and not singleton:
+                        out.append(ob(f"C12.struct.class-state.{mod.split('.')[-1]}.{txt}.L{n.lineno}", False, "K3",
+                                      f"{ast.unparse(t_)} is assigned at run time ({mod}:{n.lineno}): one value for the whole process, shared by all contexts",
+                                      witness="two contexts: the second one sees (or overwrites) what the first one stored there"))
+    out.append(ob("C12.struct.class-state.scan", n_attr > 0, "K3", f"{n_attr} attribute/element assignments inspected: none stores on a class, a function or type(self)"))
     out.append(ob("C12.struct.inventory", n_bind > 0, "K3", f"{n_bind} module-level bindings inspected"))
     # 2. persistence and recovery in Context.eval
     ev = ast.unparse(S.fn("microjs.context", "Context.eval"))
@@ -82,6 +127,20 @@ def c12_struct(tier="quick", seed=0):
     return out
 
 
+def process_state(prop, tier="quick", seed=0):
+    """the process-level-state obligations of c12_struct, renamed for another property that also needs "nothing
+    survives in the process from one context / evaluation to the next" """
+    out = []
+    for o in c12_struct(tier, seed):
+        if any(k in o["id"] for k in (".module-state.", ".class-state.", ".global-stmt.", ".cache", ".decorator", ".mutable-default.")):
+            o = dict(o)
+            o["id"] = o["id"].replace("C12.", prop + ".", 1)
+            o["finding_key"] = o["id"]
+            out.append(o)
+    out.append(ob(f"{prop}.struct.process-state.inventory", len(out) > 0, "K3", f"{len(out)} module/class-level bindings and run-time stores inspected"))
+    return out
+
+
 OPS = {
     "define": ("eval", "var a = 1; function f(){ return a }", None),
     "assign": ("eval", "a = (typeof a === 'number' ? a : 0) + 1; a", "inc"),
@@ -95,6 +154,10 @@ OPS = {
     "nested-eval-define": ("eval", "eval('var a = 40'); new Function('b = 2')(); a", "def40"),
     "try-timeout-inside": ("eval", "function g(){ try { while(true){} } catch (e) { } } g()", "errkeep"),
     "return-in-try": ("eval", "function h(){ try { return 1 } catch (e) {} } h(); a = (typeof a === 'number' ? a : 0)", "keep"),
+    # a function kept by the context runs a regex literal again after the deadline of the evaluation that defined it has
+    # passed (the history sleeps before every call-regex-fn): nothing of the old evaluation may stop the new one
+    "define-regex-fn": ("eval", "function rx(s){ return /(a*)*b/.test(s) } rx('aaaaaa')", "rxdef"),
+    "call-regex-fn": ("eval", "typeof rx === 'function' ? rx('aaaaaa') : 'none'", "rxcall"),
     "set": ("set", None, None), "get": ("get", None, None),
 }
 
@@ -119,6 +182,9 @@ def _history(args):
                     return (hist, step, f"get('a') = {got!r}, model {m['a']!r}")
                 continue
             err = None
+            if op == "call-regex-fn":
+                import time as _t
+                _t.sleep(0.2)
             try:
                 r = c.eval(src)
             except JSError as e:
@@ -155,6 +221,14 @@ def _history(args):
             elif op == "try-timeout-inside":
                 if err != "TimeLimitError":
                     return (hist, step, f"loop inside try ended with {err} / {r!r}")
+            elif op == "define-regex-fn":
+                m["rx"] = True
+                if r is not False:
+                    return (hist, step, f"define-regex-fn returned {r!r} / {err}")
+            elif op == "call-regex-fn":
+                want = False if m.get("rx") else "none"
+                if r != want or err is not None:
+                    return (hist, step, f"call-regex-fn gave {r!r} / {err}, expected {want!r}")
             elif op == "return-in-try":
                 m["a"] = m["a"] if isinstance(m["a"], int) else 0
         except BaseException as e:  # noqa
@@ -185,6 +259,51 @@ def c12_histories(tier="quick", seed=0):
             by[op][1] = (hist, step, why)
     return [ob(f"C12.bounded.histories.{op}", b is None, "B", f"appears in {n} history steps" if b is None else f"step {b[1]} of {b[0]}: {b[2]}",
                witness=(repr(b[0]) if b else None), confirmed=True if b else None, domain=n) for op, (n, b) in sorted(by.items())]
+
+
+# ---- bounded: what one context adds to its built-ins is invisible in another, whichever was created first -----------------
+CREATORS = ["[1]", "[1].slice()", "[1].map(function (x) { return x; })", "[1].concat([2])", "[3, 1].sort()", "[1, 2].filter(function () { return true; })", "'a,b'.split(',')",
+            "JSON.parse('[1]')", "JSON.parse('{\"a\": 1}')", "Object.keys({a: 1})", "Object.values({a: 1})", "Object.entries({a: 1})[0]", "new Array(2)", "Array(2)",
+            "'ab'.match(/a/)", "/a/.exec('a')", "given", "({})", "new Object()", "Object.create({})", "Object.assign({}, {a: 1})", "(function () {})", "(() => 1)",
+            "new Function('return 1')", "(function () {}).bind(null)", "new Error('x')", "new TypeError('x')", "/a/", "new RegExp('a')", "new Uint8Array(1)", "'str'", "(5)", "true",
+            "Math", "JSON", "Object", "Array", "String", "Number", "Function", "RegExp", "Error", "parseInt", "[].push", "'a'.slice", "Math.max", "Object.keys", "JSON.parse",
+            "Object.prototype", "Array.prototype", "Function.prototype", "String.prototype", "Error.prototype", "RegExp.prototype"]
+WRITES = "".join("try { " + w + " } catch (e) { }; " for w in [
+    "Array.prototype.tag = 'w'", "Object.prototype.tag = 'w'", "String.prototype.tag = 'w'", "Function.prototype.tag = 'w'", "RegExp.prototype.tag = 'w'",
+    "Error.prototype.tag = 'w'", "Number.prototype.tag = 'w'", "Math.tag = 'w'", "JSON.tag = 'w'", "Object.tag = 'w'", "Array.tag = 'w'", "String.tag = 'w'",
+    "Math.max = function () { return 'w'; }", "Object.keys = function () { return 'w'; }", "JSON.parse.tag = 'w'", "parseInt.tag = 'w'", "globalTag = 'w'"]) + "0"
+
+
+@groups.group(id="C12.bounded.isolation", prop="C12", kind="B", functions=["microjs.context:Context"])
+def c12_isolation(tier="quick", seed=0):
+    """two contexts in one process, the writer created before or after the reader: nothing the writer adds to (or
+    replaces in) its built-in objects and prototypes shows on any object the reader creates or reaches"""
+    from microjs import Context
+    out = []
+    for order in ("writer-first", "reader-first", "third-context-between"):
+        if order == "writer-first":
+            w, r = Context(time_limit=10), Context(time_limit=10)
+        elif order == "reader-first":
+            r, w = Context(time_limit=10), Context(time_limit=10)
+        else:
+            r = Context(time_limit=10)
+            w = Context(time_limit=10)
+            Context(time_limit=10).eval("1")
+        r.set("given", [1, {"a": 1}])
+        bad = None
+        try:
+            r.eval("var warm = [1].slice(); 0")
+            w.set("given", [1])
+            w.eval(WRITES)
+            for e in CREATORS:
+                got = r.eval(f"var v = {e}; (v === undefined || v === null ? 'undefined' : String(v.tag)) + '|' + typeof globalTag + '|' + Math.max(1, 2) + '|' + Object.keys({{a: 1}}).length")
+                if got != "undefined|undefined|2|1" and bad is None:
+                    bad = (e, got)
+        except Exception as ex:  # noqa
+            bad = bad or ("<harness>", type(ex).__name__ + ": " + str(ex)[:80])
+        out.append(ob(f"C12.bounded.isolation.{order}", bad is None, "B", f"{len(CREATORS)} objects created or reached in the reader" if bad is None else f"{bad[0]} in the reader shows {bad[1]!r}",
+                      witness=(f"c2.eval({WRITES[:60]!r}...); c1.eval(\"({bad[0]}).tag\")" if bad else None), confirmed=True if bad else None, domain=len(CREATORS)))
+    return out
 
 
 # ---- bounded: every evaluation of a creating expression yields a fresh object -----------------------------------------
